@@ -353,8 +353,38 @@ impl Prop for C01 {
         true
     }
     fn check(&self, t: &mut Tape, ctx: &mut Ctx) -> Verdict {
-        let (case, cfg) = gen(t, ctx.tier);
-        let input = case.bytes();
+        let (mut case, cfg) = gen(t, ctx.tier);
+        let simple = case.sections().iter().all(|s| !matches!(s.kind, SK::Combined | SK::PlainDiffU | SK::SubmoduleShort) && s.hunks.iter().all(|h| h.conflict.is_none()));
+        // control characters other than tab inside hunk lines (the backspaces of nroff overstrike in a
+        // formatted manual page, a stray BEL or DEL): characters like any other - they are part of
+        // the line's text (lines with a tab are left alone: where a tab stop falls after a character
+        // without width is not what is examined here)
+        if simple && t.chance(1, 8) {
+            for it in case.items.iter_mut() {
+                if let Item::Section(s) = it {
+                    for h in s.hunks.iter_mut() {
+                        for l in h.lines.iter_mut() {
+                            if !l.text.contains('\t') && !l.text.is_empty() && t.chance(1, 3) {
+                                let bounds: Vec<usize> = (0..=l.text.len()).filter(|i| l.text.is_char_boundary(*i)).collect();
+                                let at = bounds[t.below(bounds.len())];
+                                l.text.insert_str(at, t.ps(&["\u{8}", "\u{7}", "\u{b}", "\u{1}", "\u{7f}", "x\u{8}x"]));
+                            }
+                        }
+                    }
+                }
+            }
+            ctx.class("control-characters-in-hunk-lines");
+        }
+        // delta as git's pager reads input that git has coloured (color.ui): the same rules hold
+        let coloured = simple && t.chance(1, 4);
+        ctx.class_if(coloured, "git-coloured-input");
+        let input = if coloured {
+            let mut co = crate::gen::color::gen_opts(t);
+            co.ctx_reset = false; // (git does not colour unchanged lines)
+            crate::gen::diff::lines_to_bytes(&crate::gen::color::colorize(&case.render(), &co), case.final_newline)
+        } else {
+            case.bytes()
+        };
         for it in &case.items {
             if let Item::Section(s) = it {
                 ctx.class(s.kind.name());
